@@ -111,6 +111,52 @@ class RecordingRNG(np.random.Generator):
         return r
 
 
+class QuantileRNG(np.random.Generator):
+    """Scripted uniform stream: every primitive draw scipy's samplers use is answered with the quantile `q` of that
+    primitive (uniform -> low + (high-low) q, standard normal -> Phi^-1(q), poisson(lam) -> its q-quantile), so that a
+    draw of a law whose sampler is monotone in the primitive returns the q-quantile of the law.
+    `used` lists the primitives that were called; an unscripted primitive falls through to the real stream and is
+    recorded under `unscripted` (the caller then treats the draw as not observable)."""
+
+    def __init__(self, q):
+        super().__init__(np.random.PCG64(0))
+        self.q = float(q)
+        self.used = []
+        self.unscripted = []
+
+    def _fill(self, v, size):
+        return v if size is None else np.full(size, v, dtype=float)
+
+    def uniform(self, low=0.0, high=1.0, size=None):
+        self.used.append("uniform")
+        return self._fill(low + (high - low) * self.q, size)
+
+    def random(self, size=None, dtype=np.float64, out=None):
+        self.used.append("random")
+        return self._fill(self.q, size)
+
+    def standard_normal(self, size=None, dtype=np.float64, out=None):
+        from scipy import stats as _st
+        self.used.append("standard_normal")
+        return self._fill(float(_st.norm.ppf(self.q)), size)
+
+    def normal(self, loc=0.0, scale=1.0, size=None):
+        from scipy import stats as _st
+        self.used.append("normal")
+        return self._fill(loc + scale * float(_st.norm.ppf(self.q)), size)
+
+    def poisson(self, lam=1.0, size=None):
+        from scipy import stats as _st
+        self.used.append("poisson")
+        return self._fill(float(_st.poisson.ppf(self.q, lam)), size)
+
+    def __getattribute__(self, name):
+        if name in ("gamma", "standard_gamma", "lognormal", "exponential", "standard_exponential", "geometric", "integers",
+                    "binomial", "negative_binomial", "beta", "chisquare", "choice", "permutation", "shuffle", "bytes"):
+            object.__getattribute__(self, "unscripted").append(name)
+        return super().__getattribute__(name)
+
+
 class ScriptExhausted(BaseException):
     pass
 
